@@ -22,6 +22,8 @@ pub enum Case {
     DbfHist { base: String, ops: Vec<crate::extra::PairOp> },
     /// C20: geo-types / geo-traits conversions
     Geo(crate::extra::GeoCase),
+    /// a scenario evaluated by an oracle only (not part of the correspondence): name and arguments
+    Scenario(Vec<String>),
     Raw(String),
 }
 
@@ -65,6 +67,7 @@ pub fn show_case(c: &Case) -> String {
         Case::SpecDecode { shp, .. } => format!("specdecode {}", hex(shp)),
         Case::DbfHist { base, ops } => format!("dbfhist {} {} {}", base, ops.len(), ops.iter().map(|o| o.tok()).collect::<Vec<_>>().join(" ")).trim_end().to_string(),
         Case::Geo(g) => crate::extra::show_geocase(g),
+        Case::Scenario(a) => format!("scenario {}", a.join(" ")),
         Case::Raw(s) => s.clone(),
     }
 }
@@ -158,6 +161,14 @@ pub fn parse_case(line: &str) -> Option<Case> {
             }
             Case::DbfHist { base, ops }
         }
+        "scenario" => {
+            let mut a = vec![];
+            while let Some(x) = t.next() {
+                a.push(x.to_string());
+            }
+            t.i = t.t.len();
+            Case::Scenario(a)
+        }
         "code" => Case::Code(t.int()? as i32),
         "ring" => {
             let d = t.dim()?;
@@ -188,6 +199,7 @@ pub fn run_case(c: &Case) -> String {
         Case::SpecDecode { expected, .. } => expected.clone(),
         Case::DbfHist { base, ops } => crate::extra::v_dbfhist(base, ops),
         Case::Geo(g) => crate::extra::run_geocase(g),
+        Case::Scenario(_) => "scenario".into(),
         Case::Raw(_) => "unsupported".into(),
     }
 }
